@@ -122,10 +122,23 @@ where
                 LTermInner::Val(LValue::Number(w)),
             ) => {
                 /* u and w grounded */
-                state
-                    .smap_to_mut()
-                    .extend(vwalk.clone(), LTerm::from(w / u));
-                state.run_constraints()
+                if *u == 0 {
+                    if *w == 0 {
+                        /* 0 * v = 0 holds for every v: keep the constraint. */
+                        Ok(state.with_constraint(self))
+                    } else {
+                        Err(())
+                    }
+                } else {
+                    match (w.checked_rem(*u), w.checked_div(*u)) {
+                        (Some(0), Some(v)) => {
+                            state.smap_to_mut().extend(vwalk.clone(), LTerm::from(v));
+                            state.run_constraints()
+                        }
+                        /* No integer v with u * v = w. */
+                        _ => Err(()),
+                    }
+                }
             }
             (
                 LTermInner::Var(_, _),
@@ -133,10 +146,23 @@ where
                 LTermInner::Val(LValue::Number(w)),
             ) => {
                 /* v and w grounded */
-                state
-                    .smap_to_mut()
-                    .extend(uwalk.clone(), LTerm::from(w / v));
-                state.run_constraints()
+                if *v == 0 {
+                    if *w == 0 {
+                        /* u * 0 = 0 holds for every u: keep the constraint. */
+                        Ok(state.with_constraint(self))
+                    } else {
+                        Err(())
+                    }
+                } else {
+                    match (w.checked_rem(*v), w.checked_div(*v)) {
+                        (Some(0), Some(u)) => {
+                            state.smap_to_mut().extend(uwalk.clone(), LTerm::from(u));
+                            state.run_constraints()
+                        }
+                        /* No integer u with u * v = w. */
+                        _ => Err(()),
+                    }
+                }
             }
             (LTermInner::Var(_, _), LTermInner::Var(_, _), LTermInner::Var(_, _))
             | (LTermInner::Var(_, _), LTermInner::Var(_, _), LTermInner::Val(LValue::Number(_)))
